@@ -156,6 +156,37 @@ theorem open_connection_no_notice (elems : List Elem) (rest : List Conn)
     segments (.initOk elems true :: rest) = connItems elems := by
   simp [segments, dropped, h]
 
+theorem specConns_open_cut (p : Policy) (elems : List Elem) (rest : List Conn)
+    (h : hasTerminal elems = false) (pre : List Conn) :
+    ∀ n, specConns p n (pre ++ .initOk elems true :: rest) = specConns p n (pre ++ [.initOk elems true]) := by
+  induction pre with
+  | nil => intro n; simp [specConns, dropped, h]
+  | cons c pre ih =>
+    intro n
+    cases c with
+    | initFail => simp [specConns, ih]
+    | initOk e hg => simp [specConns, ih]
+
+/-- (where the trace ENDS; spec key `evn`, oracle review C12-M1) A connection that stays open — no
+terminal error, never ends — is the end of the trace: whatever script entries follow it, the run is
+the run of the script cut behind that connection. No event, no attempt, no notice, no wait comes
+after its items; the `evn` line of the spec states that count. -/
+theorem open_connection_ends_trace (p : Policy) (pre : List Conn) (elems : List Elem) (rest : List Conn)
+    (h : hasTerminal elems = false) :
+    runEvents p (pre ++ .initOk elems true :: rest) = runEvents p (pre ++ [.initOk elems true]) ∧
+    runHandler p (pre ++ .initOk elems true :: rest) = runHandler p (pre ++ [.initOk elems true]) := by
+  rw [run_events_refines_spec, run_events_refines_spec, run_handler_refines_spec, run_handler_refines_spec]
+  have key : specEvents p (pre ++ .initOk elems true :: rest) = specEvents p (pre ++ [.initOk elems true]) := by
+    cases pre with
+    | nil => simp [specEvents, specConns, dropped, h]
+    | cons c pre =>
+      cases c with
+      | initFail => simp [specEvents]
+      | initOk e hg =>
+        have := specConns_open_cut p elems rest h (.initOk e hg :: pre) 0
+        simpa [specEvents] using this
+  exact ⟨key, by simp [specHandler, key]⟩
+
 /-! ## (3) `errors_pass` -/
 
 /-- A non-terminal error is handed on and does not end the connection: what follows it is still
